@@ -172,16 +172,33 @@ def derived(x):
 CRS = {"ENU": ENUCoords, "GEO": GeoCoords, "ECEF": ECEFCoords}
 
 
-def make_track(sig, crs="ENU"):
+def ints_of(case, sig):
+    """numeric type of the numbers handed to tracklib: case["ints"] when given, else every third signal (by its own
+    content) hands integer-valued numbers over as Python ints - users write ENUCoords(3, 0, 0) and integer features, and
+    code that lets numpy infer a dtype from them truncates"""
+    if case.get("ints") is not None:
+        return bool(case["ints"])
+    h = 0
+    for v in sig["x"][:8] + sig["a"][:8]:
+        if v == v and abs(v) < 1e15:
+            h = (h * 31 + int(v * 8)) % 1000003
+    return (h + len(sig["x"])) % 3 == 0
+
+
+def _num(v, ints):
+    return int(v) if ints and isinstance(v, float) and v == v and abs(v) < 2 ** 52 and v == int(v) else v
+
+
+def make_track(sig, crs="ENU", ints=False):
     """crs: the coordinate class of the positions; x, y, z are the three stored components (E,N,U / lon,lat,hgt / X,Y,Z)
     read and written through getX/getY/getZ - setX/setY/setZ; the filter treats them as plain numbers"""
     tr = Track([], 1)
     n = len(sig["x"])
     cls = CRS[crs]
     for i in range(n):
-        tr.addObs(Obs(cls(sig["x"][i], sig["y"][i], sig["z"][i]),
+        tr.addObs(Obs(cls(_num(sig["x"][i], ints), _num(sig["y"][i], ints), _num(sig["z"][i], ints)),
                       ObsTime(2020, 1, 1, (i // 3600) % 24, (i // 60) % 60, i % 60, 0)))
-    tr.createAnalyticalFeature("a", list(sig["a"]))
+    tr.createAnalyticalFeature("a", [_num(v, ints) for v in sig["a"]])
     return tr
 
 
@@ -257,7 +274,8 @@ def run_filter(case, sig, kobj):
     """-> list of (what, x, got) for every filtered signal, plus list of (name, before, after) for signals that must stay
     as they were.  A ZeroDivisionError of tracklib passes through."""
     crs = case.get("crs") or "ENU"
-    tr = make_track(sig, crs)
+    ints = ints_of(case, sig)
+    tr = make_track(sig, crs, ints)
     via = case["via"]
     res, untouched = [], []
     if via == "feature":
@@ -280,7 +298,7 @@ def run_filter(case, sig, kobj):
             judged = [("", tr, sig)]
         else:
             sig2 = {"x": sig["z"], "y": sig["x"], "z": sig["y"], "a": sig["a"]}
-            tr2 = make_track(sig2, crs)
+            tr2 = make_track(sig2, crs, ints)
             ret = TrackCollection([tr, tr2]).smooth(width)
             judged = [("track 0 ", tr, sig), ("track 1 ", tr2, sig2)]
         for tag, t, sg in judged:
